@@ -487,6 +487,11 @@ fn check_reply(d: &[u8], peer: Ip, local: Ip, dec: &Decision, reply: &[u8], obs:
     ensure!(rw::checksum_verifies(&h, rw::SCMP_PROTO, l4), "scmp-reply:checksum-does-not-verify",
         "SCMP checksum {:#06x} does not verify over pseudo-header||message (expected {:#06x}); quote {} bytes", m.checksum, rw::compute_checksum(&h, rw::SCMP_PROTO, l4, 2), quote.len());
     obs.label(format!("reply:code-{}", m.code));
+    // informational (the property does not constrain the pointer): does it point into the quote?
+    let pointer = u16::from_be_bytes([m.body[2], m.body[3]]) as usize;
+    if pointer >= quote.len() && !(pointer == 0 && quote.is_empty()) {
+        obs.label("reply:pointer-beyond-quoted-bytes");
+    }
     obs.label(if matches!(peer, Ip::V4(_)) { "reply:to-v4-peer" } else { "reply:to-v6-peer" });
     // informational for C14 (no error loops): a reply to a datagram that is itself an SCMP error
     if let Some(oh) = &dec.hdr {
@@ -504,7 +509,7 @@ fn check_reply(d: &[u8], peer: Ip, local: Ip, dec: &Decision, reply: &[u8], obs:
 /// What the receive loop does with an accepted view (observer metadata + what is dispatched).
 fn touch_dispatched(d: &[u8], h: Option<&RHeader>) -> CheckResult {
     let r = vcore::no_panic("dispatch-path", || {
-        let (view, _rest) = ScionPacketView::try_from_slice(d).ok()?;
+        let (view, _rest) = <ScionPacketView>::try_from_slice(d).ok()?;
         let hd = view.header();
         let _ = (hd.src_ia(), hd.dst_ia());
         let n = hd.header_len() as usize + view.payload().len();
